@@ -157,6 +157,9 @@ async def do_install(hass, case):
     entry.add_to_hass(hass)
     cands = set(env.values()) | {v for _k, v in (case.get("rec0") or [])}
     steps = []
+    # what is PERSISTED: the record as last handed to hass.config_entries.async_update_entry (snapshot taken at the call;
+    # initially the record the entry was created with).  This is what survives a restart, not the live entry.data object.
+    persisted = [None if case.get("rec0") is None else dict(case["rec0"])]
     try:
         for st in case["steps"]:
             for k, v in st.get("ext", []):
@@ -168,10 +171,13 @@ async def do_install(hass, case):
             index = dict(st.get("index", []))
             cands |= set(index.values())
             candidates_of_files(st["files"], cands)
-            # the user's configuration: allow_all_imports for this run
-            new = dict(entry.data)
-            new[CONF_ALLOW_ALL_IMPORTS] = bool(st["allow"])
-            hass.config_entries.async_update_entry(entry, data=new)
+            # the user's configuration: allow_all_imports for this run.  Changing it goes through a reload of the entry from
+            # what was persisted (restart semantics); an unchanged flag leaves the live entry object alone.
+            if bool(entry.data.get(CONF_ALLOW_ALL_IMPORTS)) != bool(st["allow"]):
+                new = {CONF_ALLOW_ALL_IMPORTS: bool(st["allow"])}
+                if persisted[0] is not None:
+                    new[CONF_INSTALLED_PACKAGES] = dict(persisted[0])
+                hass.config_entries.async_update_entry(entry, data=new)
             folder, ids = write_tree(st["files"])
             env_before = list(env.items())
             calls = []
@@ -207,6 +213,9 @@ async def do_install(hass, case):
 
             def counting_update(*a, **k):
                 updates[0] += 1
+                data_arg = k.get("data")
+                if data_arg is not None and data_arg.get(CONF_INSTALLED_PACKAGES) is not None:
+                    persisted[0] = dict(data_arg[CONF_INSTALLED_PACKAGES])      # snapshot: later in-place edits do not count
                 return real_update(*a, **k)
 
             kind, err = 2, None
@@ -225,9 +234,10 @@ async def do_install(hass, case):
             rows = canon_table(captured.get("table", {}), ids)
             rec_after = entry.data.get(CONF_INSTALLED_PACKAGES)
             rec_after = [[as_str(k), as_str(v)] for k, v in rec_after.items()] if rec_after is not None else []
+            pers = [[as_str(k), as_str(v)] for k, v in (persisted[0] or {}).items()]
             for r in rows:
                 cands.add(r[1])
-            for _k, v in rec_after:
+            for _k, v in rec_after + pers:
                 if isinstance(v, str):
                     cands.add(v)
             cands |= set(env.values())
@@ -235,7 +245,7 @@ async def do_install(hass, case):
                 "order": canon_order(found, ids), "table": rows, "env_before": [list(x) for x in env_before], "kind": kind, "error": err,
                 "args": [as_str(x) for x in calls[0]] if len(calls) == 1 else (None if not calls else [as_str(x) for x in sum(calls, [])]),
                 "n_calls": len(calls),
-                "rec_after": rec_after, "updated": updates[0] > 0, "n_updates": updates[0],
+                "rec_after": rec_after, "persisted": pers, "updated": updates[0] > 0, "n_updates": updates[0],
                 "env_after": [list(x) for x in env.items()],
             })
     finally:
